@@ -176,7 +176,8 @@ Proof.
   destruct ch, alts as [|x [|y l]]; simpl; intros H; inversion H; subst; auto.
 Qed.
 
-Lemma final_ok_state s : final_ok md s = true -> md <> MFunc /\ s = init_state md.
+Lemma final_ok_state s : final_ok md s = true ->
+  md <> MFunc /\ mkA (norm (a_aux s)) (a_segs s) (a_ts s) = init_state md.
 Proof.
   unfold final_ok. destruct md; try discriminate; intros H; split; try discriminate; now apply astate_eqb_eq.
 Qed.
@@ -342,12 +343,12 @@ Proof. intros code H. apply (check_sound code MInit _ (verify_mode_check _ _ H))
 Lemma done_end_shape code md ch st :
   md <> MFunc ->
   step code md ch st = Done ->
-  pc st = length code /\ cx st = aux0 /\ segs st = a_segs (init_state md) /\ frames st = [].
+  pc st = length code /\ norm (cx st) = aux0 /\ segs st = a_segs (init_state md) /\ frames st = [].
 Proof.
   intros Hmd. unfold step. destruct (pc st =? length code) eqn:E.
   - apply Nat.eqb_eq in E. destruct md; try congruence;
       (destruct (frames st); try discriminate;
-       destruct (aux_eqb (cx st) aux0) eqn:E2; simpl; try discriminate;
+       destruct (aux_eqb (norm (cx st)) aux0) eqn:E2; simpl; try discriminate;
        match goal with |- context [list_eqb seg_eqb (segs st) ?x] => destruct (list_eqb seg_eqb (segs st) x) eqn:E3 end;
        try discriminate; intros _; apply aux_eqb_eq in E2; apply (list_eqb_eq _ seg_eqb_eq) in E3; auto).
   - destruct (length code <? pc st); try discriminate.
